@@ -720,3 +720,110 @@ pub fn is_prefix_modulo_local_id(prefix: &[u8], whole: &[u8], local: bool) -> bo
     let tail = &p2[l1..];
     tail.iter().all(|c| is_tok(*c)) && ta.starts_with(tail) && whole[l1..].starts_with(tg)
 }
+
+// ------------------------------------------------------------------------------------------
+// the command in --watch mode: one process, several saves of the input file
+
+/// What the watch session showed after one save of the input.
+#[derive(Clone, Debug)]
+pub struct WatchObs {
+    /// content of the output file once it had settled (None: no such file)
+    pub out: Option<Vec<u8>>,
+    /// the output file differs from what it held before this save
+    pub changed: bool,
+    /// the command reported a failed transform after this save
+    pub failure_reported: bool,
+}
+
+/// `svgdx --watch in.xml -o out.svg` in `dir`, with `saves` written to in.xml one after the
+/// other (the first before the command starts). After each save the session waits - in real
+/// time, this is a real process watching a real file - until the output file has changed and
+/// settled, or a failure was reported, or `patience` has passed. A watch that neither renders
+/// nor reports within `patience` shows up as `changed == false && !failure_reported`.
+pub fn watch_session(env: &WorkerEnv, args: Vec<String>, dir: &Path, saves: &[Vec<u8>], pre_out: Option<&[u8]>, fake_time_ns: u64, patience: Duration) -> Result<Vec<WatchObs>, String> {
+    let _ = std::fs::remove_dir_all(dir);
+    std::fs::create_dir_all(dir).map_err(|e| format!("mkdir: {e}"))?;
+    let (inp, outp, errp) = (dir.join("in.xml"), dir.join("out.svg"), dir.join("stderr.txt"));
+    let first = saves.first().ok_or("no saves")?;
+    std::fs::write(&inp, first).map_err(|e| format!("write: {e}"))?;
+    if let Some(p) = pre_out {
+        // (written after the input, so it is the newer file)
+        std::thread::sleep(Duration::from_millis(20));
+        std::fs::write(&outp, p).map_err(|e| format!("write: {e}"))?;
+    }
+    let errf = std::fs::File::create(&errp).map_err(|e| format!("create: {e}"))?;
+    let mut cmd = Command::new(env.bin_dir.join("svgdx"));
+    cmd.args(&args)
+        .args(["--watch", "in.xml", "-o", "out.svg"])
+        .current_dir(dir)
+        .stdin(Stdio::null())
+        .stdout(Stdio::null())
+        .stderr(Stdio::from(errf))
+        .env("LD_PRELOAD", &env.seam_lib)
+        .env("VERIF_ENTROPY", "7")
+        .env("VERIF_FAKE_TIME", fake_time_ns.to_string())
+        .env_remove("RUST_BACKTRACE");
+    die_with_parent(&mut cmd);
+    let mut child = cmd.spawn().map_err(|e| format!("spawn svgdx --watch: {e}"))?;
+    let failures = |p: &Path| std::fs::read(p).map(|b| b.windows(16).filter(|w| w == b"transform failed").count()).unwrap_or(0);
+    let mut prev: Option<Vec<u8>> = pre_out.map(|b| b.to_vec());
+    let mut seen_failures = 0;
+    let mut obs = Vec::new();
+    for (i, save) in saves.iter().enumerate() {
+        if i > 0 {
+            // overwrite in place, one write, no truncation first: a reader never finds the
+            // file empty (callers make all saves the same length, so it never finds a mix of
+            // lengths either)
+            use std::io::{Seek, SeekFrom};
+            let mut f = std::fs::OpenOptions::new().write(true).open(&inp).map_err(|e| format!("open: {e}"))?;
+            f.seek(SeekFrom::Start(0)).map_err(|e| format!("seek: {e}"))?;
+            f.write_all(save).map_err(|e| format!("write: {e}"))?;
+            f.set_len(save.len() as u64).map_err(|e| format!("set_len: {e}"))?;
+        }
+        let start = Instant::now();
+        let mut last: Option<Vec<u8>> = None;
+        let mut stable_since = Instant::now();
+        let (mut changed, mut failed) = (false, false);
+        loop {
+            std::thread::sleep(Duration::from_millis(25));
+            let now = std::fs::read(&outp).ok();
+            if now != last {
+                last = now.clone();
+                stable_since = Instant::now();
+            }
+            let f = failures(&errp);
+            if f > seen_failures {
+                failed = true;
+            }
+            let differs = now != prev && now.as_ref().map(|b| !b.is_empty()).unwrap_or(false);
+            if differs && stable_since.elapsed() > Duration::from_millis(120) {
+                changed = true;
+                break;
+            }
+            if failed && stable_since.elapsed() > Duration::from_millis(120) {
+                break;
+            }
+            if start.elapsed() > patience || !matches!(child.try_wait(), Ok(None)) {
+                break;
+            }
+        }
+        seen_failures = failures(&errp);
+        // (the command rewrites the file in place, and in this sandbox keeps doing so: a read
+        // can catch it half written - take two equal, non-empty reads some time apart)
+        let mut out = std::fs::read(&outp).ok();
+        for _ in 0..40 {
+            std::thread::sleep(Duration::from_millis(40));
+            let again = std::fs::read(&outp).ok();
+            let settled = again == out && again.as_ref().map(|b| !b.is_empty()).unwrap_or(true);
+            out = again;
+            if settled {
+                break;
+            }
+        }
+        prev = out.clone();
+        obs.push(WatchObs { out, changed, failure_reported: failed });
+    }
+    let _ = child.kill();
+    let _ = child.wait();
+    Ok(obs)
+}
